@@ -465,6 +465,9 @@ func c20Run(w *explore.Worker, c c20Case) (steps int) {
 		want := model.clone()
 		accepted := want.apply(op)
 		err, _ := runUpdate(stores, op, 0, nil)
+		if accepted && err != nil && strings.HasPrefix(op, "acctdel:") && len(model.Accts) == 1 {
+			continue // the last account: refusing to delete it is fine (a server without accounts does not start)
+		}
 		if accepted && err != nil {
 			fail("update-after-restart-refused", fmt.Sprintf("update %d %q returned %v (leftovers of the crash?)", i, op, err))
 			return steps
@@ -494,7 +497,7 @@ func c20Run(w *explore.Worker, c c20Case) (steps int) {
 }
 
 var c20Alphabet = []string{"board:1", "board:2", "newsgrp:C2", "newspost:C1:second", "newspost:C1:" + strings.Repeat("long", 200), "newspost:C1:\ttab\nlf", "newsgrp:<<", "newspost:C1:Caf%8E", "acctnew:Ren%8Ee", "newsdelart:C1", "newsdelitem:C1",
-	"acctnew:b", "acctmod:a", "acctren:a:c", "acctdel:a", "acctmod:b", "ban:10.0.0.1:temp", "ban:10.0.0.1:perm", "ban:10.0.0.2:perm"}
+	"acctnew:b", "acctmod:a", "acctren:a:c", "acctdel:a", "acctdel:guest", "acctmod:b", "ban:10.0.0.1:temp", "ban:10.0.0.1:perm", "ban:10.0.0.2:perm"}
 
 func c20Histories(depth int) [][]string {
 	var out [][]string
